@@ -31,7 +31,7 @@ def must_see(tier):
         m['c:%s:n>800:extremes' % fam] = 1
     for impl in ('c', 'py'):
         for k in ('int', 'Set', 'TreeSet', 'Bucket', 'BTree', 'list',
-                  'generator', 'range', 'other-impl'):
+                  'generator', 'range', 'other-impl', 'getitem-seq'):
             m['%s:operand:%s' % (impl, k)] = 5
         m[impl + ':dups-across-operands'] = 10
         m[impl + ':ghost-operands'] = 20
@@ -87,6 +87,18 @@ def gen_keys(fam, rng, n, pattern):
         base = min(max(base, lo), hi - (256 ** w - 1)) if \
             hi - (256 ** w - 1) >= lo else lo
         out = [min(hi, base + rng.randrange(256 ** w)) for _ in range(n)]
+    elif pattern == 'shifted':
+        # all keys agree in one or more LOW bytes and differ above them
+        # (multiples of 256, (hi << 32) | lo with few distinct lo, ...): a
+        # radix pass that can be skipped lies below passes that cannot
+        sh = 8 * rng.randint(1, bits // 8 - 1)
+        const = rng.randrange(1 << sh) if rng.random() < .5 else 0
+        top = (hi - const) >> sh
+        bot = -((-(lo - const)) >> sh) if lo < 0 else 0
+        out = [((rng.randint(bot, top)) << sh) + const for _ in range(n)]
+        if rng.random() < .3 and n > 3:
+            # ... plus a handful of keys that differ in the low bytes only
+            out[:3] = [min(hi, max(lo, out[0] + d)) for d in (1, 2, 255)]
     elif pattern == 'ascending-disjoint':
         start = rng.randint(lo, max(lo, hi - 10 * n - 1))
         out = [start + 3 * i for i in range(n)]
@@ -94,7 +106,21 @@ def gen_keys(fam, rng, n, pattern):
 
 
 PATTERNS = ['uniform', 'zero', 'signbit', 'topbit', 'extremes', 'dups',
-            'window', 'ascending-disjoint']
+            'window', 'ascending-disjoint', 'shifted', 'shifted']
+
+
+class GetitemSeq:
+    """Iterable only through the legacy sequence protocol (__getitem__ and
+    __len__, no __iter__), like ctypes arrays."""
+
+    def __init__(self, items):
+        self._items = list(items)
+
+    def __len__(self):
+        return len(self._items)
+
+    def __getitem__(self, i):
+        return self._items[i]
 
 
 def split_operands(fam, impl, rng, keys, rec):
@@ -124,7 +150,7 @@ def split_operands(fam, impl, rng, keys, rec):
             continue
         kind = rng.choice(['Set', 'TreeSet', 'Bucket', 'BTree', 'list',
                            'tuple', 'generator', 'pyset', 'range',
-                           'other-impl', 'Set', 'list'])
+                           'other-impl', 'Set', 'list', 'getitem-seq'])
         if kind in setops.CONTAINER_KINDS:
             lo_, hi_ = INT_RANGES[fam.kc]
             pool = [rng.randint(lo_, hi_) for _ in range(rng.choice(
@@ -144,6 +170,8 @@ def split_operands(fam, impl, rng, keys, rec):
             ops.append(list(part))
         elif kind == 'tuple':
             ops.append(tuple(part))
+        elif kind == 'getitem-seq':
+            ops.append(GetitemSeq(part))
         elif kind == 'generator':
             ops.append((k for k in list(part)))
         elif kind == 'pyset':
